@@ -146,7 +146,11 @@ func (e *taintEngine) eval(v ssa.Value, fn *ssa.Function, ctx *taintCtx, seen ma
 		return nil
 	case *ssa.Phi:
 		var t taintSet
-		for _, ed := range x.Edges {
+		for i, ed := range x.Edges {
+			// `if s != "" { s = escape(s) }`: on the edge that skips the assignment s is ""
+			if i < len(x.Block().Preds) && stringEmptyOnEdge(ed, x.Block().Preds[i], x.Block()) {
+				continue
+			}
 			t = t.add(e.eval(ed, fn, ctx, seen))
 		}
 		return t
@@ -605,4 +609,36 @@ func loopHeaderOfIndex(idx ssa.Value) *ssa.BasicBlock {
 		}
 	}
 	return nil
+}
+
+// stringEmptyOnEdge: the edge pred→blk is taken only when the string v is empty: pred ends
+// in a test of v against "" and blk is the successor of the "equal" outcome.
+func stringEmptyOnEdge(v ssa.Value, pred, blk *ssa.BasicBlock) bool {
+	if len(pred.Instrs) == 0 {
+		return false
+	}
+	iff, ok := pred.Instrs[len(pred.Instrs)-1].(*ssa.If)
+	if !ok || len(pred.Succs) != 2 || pred.Succs[0] == pred.Succs[1] {
+		return false
+	}
+	cmp, ok := iff.Cond.(*ssa.BinOp)
+	if !ok || (cmp.Op != token.EQL && cmp.Op != token.NEQ) {
+		return false
+	}
+	var other ssa.Value
+	switch {
+	case cmp.X == v:
+		other = cmp.Y
+	case cmp.Y == v:
+		other = cmp.X
+	default:
+		return false
+	}
+	if s, isStr := constString(other); !isStr || s != "" {
+		return false
+	}
+	if cmp.Op == token.EQL {
+		return pred.Succs[0] == blk
+	}
+	return pred.Succs[1] == blk
 }
